@@ -245,3 +245,44 @@ def filter_adjusted(ctx):
                     "note": f"suppression facilities referenced: parser calls {sorted(calls)}, own directive markers {own}"
                             + ("" if ok else f" -- recorded: {sorted(exp_calls)}, {exp_own}")})
     return obs
+
+
+# ------------------------------------------------------------------ the ignore-start rule parser (assumed in c04_ignore.py)
+# _parse_ignore_start_rules is a regex parser and therefore a TRUSTED contract (its result is the uninterpreted
+# ignore_start_rules(line)). Its documented spellings are cross-checked natively here, one obligation per spelling:
+# expected = the set of rule spellings the directive names ({"*"} for a bare ignore-start).
+START_SPELLINGS = {
+    "bare": ("# thailint: ignore-start", {"*"}),
+    "one-rule": ("# thailint: ignore-start dry", {"dry"}),
+    "slash-style": ("// thailint: ignore-start nesting", {"nesting"}),
+    "two-rules-blank": ("# thailint: ignore-start nesting srp", {"nesting", "srp"}),
+    "two-rules-comma": ("# thailint: ignore-start nesting,srp", {"nesting", "srp"}),
+    "wildcard": ("# thailint: ignore-start nesting.*", {"nesting.*"}),
+    # docs/stateless-class-linter.md "Level 3: Block-Level Ignore": bracket form
+    "bracket-form": ("# thailint: ignore-start[stateless-class]", {"stateless-class"}),
+}
+START_RECORDED = {"bracket-form": {"*"}}  # known finding C04-ignore-start-bracket-means-all: what the code returns instead
+
+
+@custom("c04-start-rules", props=["C04"])
+def start_rules_table(ctx):
+    from pyvc.native import call_target
+    obs = []
+    for key, (line, expected) in sorted(START_SPELLINGS.items()):
+        try:
+            got = set(call_target("src/linter_config/ignore.py::_parse_ignore_start_rules", line))
+            err = None
+        except BaseException as e:  # noqa
+            got, err = None, repr(e)[:200]
+        ok = got == expected
+        obs.append({"name": f"custom:c04-start-rules/{key}", "kind": "custom", "solver": "native-run", "ms": 0.0, "carries": True,
+                    "verdict": "discharged" if ok else ("unknown" if err else "refuted"),
+                    "note": err or f"_parse_ignore_start_rules({line!r}) = {sorted(got)}; documented meaning {sorted(expected)}",
+                    "witness": None if ok else {"input": line, "result": None if got is None else sorted(got), "expected": sorted(expected)},
+                    "witness_confirmed": (not ok) and err is None})
+        if key in START_RECORDED:
+            ok2 = ok or got == START_RECORDED[key]
+            obs.append({"name": f"custom:c04-start-rules-adjusted/{key}", "kind": "custom", "solver": "native-run", "ms": 0.0,
+                        "carries": True, "verdict": "discharged" if ok2 else "refuted",
+                        "note": f"recorded deviation: returns {sorted(START_RECORDED[key])} (every rule); now {None if got is None else sorted(got)}"})
+    return obs
